@@ -453,7 +453,8 @@ class IsaComponent(Component):
         mn = [s[0] for s in spec] or ["ADD"]
         prog = []
         for k in range(gen.big(rng, 8, 80, 0.02)):
-            name = gen.recase(rng, rng.choice(mn), 0.5) if rng.random() < 0.9 else "FOO"
+            name = gen.recase(rng, rng.choice(mn), 0.5) if rng.random() < 0.9 else \
+                rng.choice(["FOO", "FOO"] + gen.SPECIAL_TOKENS)
             srcs = sorted({f"R{rng.randint(0, 4)}" for _ in range(rng.randint(0, 3))})
             prog.append([srcs, f"R{rng.randint(0, 4)}", name, k + 1 + rng.randint(0, 2)])
         return {"spec": spec, "caps": caps, "prog": prog,
